@@ -26,7 +26,7 @@ ASSUMPTIONS = [
 ]
 N = {"quick": 1500, "thorough": 60000}
 REQUIRE = {"quick": {"complete_true_2x2": 300, "decisive_false": 300, "helper_pt_events": 300,
-                     "helper_seg_events": 300, "sound_Kgtm_events": 100, "inrun_pess_events": 300}}
+                     "helper_seg_events": 300, "sound_Kgtm_events": 100, "inrun_pess_events": 300, "far_translation_events": 200}}
 TIMEOUT = {"quick": 900, "thorough": 3600}
 
 THETAS = [3, 10, 20, 30, 45, 60, 75, 89, 90, 91, 105, 120, 135, 150, 170, 177]
@@ -93,6 +93,46 @@ def pair_case(mon, rng):
             mon.count("complete_true_2x2")
         if len(mon.samples) < 3:
             mon.sample({**case, "oracle_margin": [lo, hi], "answer": bool(ans)})
+
+
+def far_translation(mon, rng):
+    """integer-cornered boxes judged at the origin by the oracle, then handed to the real predicate translated by t = 2^34..2^40
+    times an integer vector (exact in float64): domination is translation invariant, so the decisive answer must not change for
+    data far from the origin (values around 1e10-1e12 with widths around 1 — seeded/U06)"""
+    th = float(rng.choice(THETAS))
+    if rng.random() < 0.6:
+        label, order = f"theta{th:g}", gen.make_order("theta", theta=th)
+    else:
+        label, order = gen.random_order(rng, 2, families=["random", "orthant"])
+    W = order.ordering_cone.W
+    m = 2
+    lo1 = rng.integers(-8, 9, size=m).astype(float)
+    hi1 = lo1 + rng.integers(0, 6, size=m)
+    lo2 = rng.integers(-8, 9, size=m).astype(float)
+    hi2 = lo2 + rng.integers(0, 6, size=m)
+    lo, hi = G.pess_dominates_margin(W, lo1, hi1, lo2, hi2)
+    if not (np.isfinite(lo) and np.isfinite(hi)) or (lo < 0.25 and hi > -0.25):
+        mon.count("far_translation_base_not_decisive")
+        return
+    expected = lo >= 0.25
+    t = float(2.0 ** int(rng.integers(34, 41))) * rng.integers(-3, 4, size=m)
+    if not t.any():
+        t[0] = 2.0 ** 36
+    case = {"kind": "pess-far", "cone": label, "W": W, "lo1": lo1 + t, "hi1": hi1 + t, "lo2": lo2 + t, "hi2": hi2 + t, "t": t, "base_margin": [lo, hi]}
+    with np.errstate(all="ignore"):
+        try:
+            base = bool(call_real(order, P.mk_rect(lo1, hi1), P.mk_rect(lo2, hi2), "classmethod"))
+            ans = bool(call_real(order, P.mk_rect(lo1 + t, hi1 + t), P.mk_rect(lo2 + t, hi2 + t), "classmethod"))
+        except Exception as e:
+            mon.violation(P.crash_mechanism(e), f"check_dominates raised {e!r} on translated boxes", case)
+            return
+    mon.count("far_translation_events")
+    mon.event(case_hash("far", W, lo1, hi1, lo2, hi2, t), True, f"far/{label}")
+    if base != expected:
+        mon.violation(f"check_dominates:wrong-{'false' if expected else 'true'}:pess", f"integer boxes at the origin: returned {base}, oracle margin [{lo:.4g},{hi:.4g}]", case)
+    elif ans != expected:
+        mon.violation("check_dominates:not-translation-invariant", f"returned {base} at the origin (oracle margin [{lo:.4g},{hi:.4g}]) but {ans} after "
+                      f"an exact translation by {t.tolist()}", case)
 
 
 def helper_pt_case(mon, rng):
@@ -217,6 +257,8 @@ def shard(mon, tier, rng, shard_no, nshards):
         inrun(mon, rng)
     for _ in range(1 if tier == "quick" else 6):
         inrun_ad(mon, rng)
+    for _ in range(25 if tier == "quick" else 400):
+        far_translation(mon, rng)
     for i in range(n):
         r = rng.random()
         if r < 0.6:
